@@ -399,6 +399,10 @@ func process2String(obj string, mergeFrom *Document, mergeFromDocs []*Document, 
 var interpRE = regexp.MustCompile(`{.*?}`)
 
 func process2StringInterp(obj string, mergeFrom *Document, mergeFromDocs []*Document, ec *EvalContext, depth int) (any, error) {
+	if depth > 1000 {
+		return nil, fmt.Errorf("%s: %w", obj, ErrCircularRef)
+	}
+
 	obj = strings.TrimSuffix(strings.TrimPrefix(obj, `$"`), `"`)
 
 	var err error
